@@ -128,6 +128,17 @@ def build(ctx):
             with open(GEN, "w") as f:
                 f.write(out)
     ctx.cov["device_table_changed_this_run"] = old != out
+    # implementation-side oracle on what the extractor just observed: an index at or beyond device_count is an error for describe and
+    # open (the property's "out-of-range indices ... produce an error status"); gives the replay when the table theorem stops checking
+    ncount = int(re.search(r"def deviceCount : Nat := (\d+)", out).group(1))
+    for m in re.finditer(r"index := (\d+), descOk := (true|false).*?\n\s*openOk := (true|false)", out):
+        i = int(m.group(1))
+        if i >= ncount and (m.group(2) == "true" or m.group(3) == "true"):
+            ctx.violation("oracle", "extract_devtable:out-of-range-index-accepted",
+                          "the real common driver accepts the out-of-range index %d (device_count = %d): describe -> %s, open -> %s" % (
+                              i, ncount, "Device_Ok" if m.group(2) == "true" else "Device_Err", "Device_Ok" if m.group(3) == "true" else "Device_Err"),
+                          {"harness": "extract_devtable", "cmd": [ext, lib], "index": i})
+    ctx.cov["out_of_range_indices_probed"] = sum(1 for m in re.finditer(r"index := (\d+),", out) if int(m.group(1)) >= ncount)
     # 2. prove
     ctx.prove(MODULE, THEOREMS, extra_targets=DRIVERS)
     if not os.path.exists(C.driver_path("acq_select")):
